@@ -115,6 +115,9 @@ type hashList struct {
 type SPDX3 struct{}
 
 func (spdx3 *SPDX3) Serialize(bom *sbom.Document, _ *native.SerializeOptions, _ interface{}) (interface{}, error) {
+	if bom == nil {
+		return nil, errors.New("document is nil, unable to serialize to SPDX 3")
+	}
 	now := time.Now()
 	spdxSBOM := sbomType{
 		Type: "Sbom",
@@ -132,10 +135,13 @@ func (spdx3 *SPDX3) Serialize(bom *sbom.Document, _ *native.SerializeOptions, _ 
 	}
 
 	// Transfer the ids of the root nodes verbatim
-	spdxSBOM.RootElements = bom.NodeList.RootElements
+	spdxSBOM.RootElements = bom.GetNodeList().GetRootElements()
 
 	// Cycle nodes and add them to the elements array
-	for _, n := range bom.NodeList.Nodes {
+	for _, n := range bom.GetNodeList().GetNodes() {
+		if n == nil {
+			continue
+		}
 		switch n.Type {
 		case sbom.Node_PACKAGE:
 			p, err := spdx3.nodeToPackage(n)
@@ -152,7 +158,10 @@ func (spdx3 *SPDX3) Serialize(bom *sbom.Document, _ *native.SerializeOptions, _ 
 		}
 	}
 
-	for _, e := range bom.NodeList.Edges {
+	for _, e := range bom.GetNodeList().GetEdges() {
+		if e == nil {
+			continue
+		}
 		r, err := spdx3.edgeToRelationship(e)
 		if err != nil {
 			return nil, fmt.Errorf("converting edge to SPDX3 relationship: %w", err)
@@ -215,6 +224,9 @@ func (spdx3 *SPDX3) nodeToPackage(n *sbom.Node) (pkg, error) {
 	}
 
 	for _, ei := range n.ExternalReferences {
+		if ei == nil {
+			continue
+		}
 		p.ExternalReferences = append(p.ExternalReferences, externalReference{
 			Type:                  "ExternalReference",
 			ExternalReferenceType: spdx3.extRefTypeFromProtobomExtRef(ei),
@@ -245,8 +257,12 @@ func (spdx3 *SPDX3) Render(rawDoc interface{}, w io.Writer, o *native.RenderOpti
 	if !ok {
 		return errors.New("unable to cast SBOM as an SPDX 3.0 SBOM")
 	}
+	indent := 0
+	if o != nil {
+		indent = o.Indent
+	}
 	enc := json.NewEncoder(w)
-	enc.SetIndent("", strings.Repeat(" ", o.Indent))
+	enc.SetIndent("", strings.Repeat(" ", indent))
 	if err := enc.Encode(doc); err != nil {
 		return fmt.Errorf("encoding SBOM: %w", err)
 	}
